@@ -13,6 +13,9 @@ PROP = {'streams': [('c03', 250, 20000)],
               'accepted_boolean_or_permitted_error2',
               'typed_false_never_satisfied2',
               'impossible_policy_never_satisfied2',
+              'strict_validation_sound',
+              'strict_validation_sound_static',
+              'impossible_policy_never_satisfied_static',
               'typeOf_sound_partial',
               'typeOf_types_wellformed',
               'accepted_boolean_or_permitted_error',
